@@ -1,2 +1,365 @@
-// Package c06: (not built yet)
+// Package c06: query-based group membership always matches the contact.
 package c06
+
+import (
+	"encoding/json"
+	"fmt"
+	"sort"
+	"strings"
+	"time"
+
+	"github.com/nyaruka/goflow/contactql"
+	"github.com/nyaruka/goflow/envs"
+	"github.com/nyaruka/goflow/flows"
+	"verif/checks/cf"
+	"verif/checks/sm"
+	"verif/mc"
+)
+
+// expectedMembership recomputes, independently of the engine's own membership code, which query
+// groups the contact should be in: active AND the group's query (parsed here) matches.
+func expectedMembership(env envs.Environment, sa flows.SessionAssets, contact *flows.Contact) (map[string]bool, error) {
+	out := map[string]bool{}
+	for _, g := range sa.Groups().All() {
+		if g.Query() == "" {
+			continue
+		}
+		q, err := contactql.ParseQuery(env, g.Query(), sa.Fields())
+		if err != nil {
+			return nil, fmt.Errorf("group %s: %w", g.Name(), err)
+		}
+		out[string(g.UUID())] = contact.Status() == flows.ContactStatusActive && contactql.EvaluateQuery(env, q, contact)
+	}
+	return out, nil
+}
+
+type groupFacts struct {
+	query  map[string]bool // uuid -> is member, for query groups
+	static []string        // static group uuids
+}
+
+func membership(sa flows.SessionAssets, contact *flows.Contact) groupFacts {
+	gf := groupFacts{query: map[string]bool{}}
+	for _, g := range sa.Groups().All() {
+		if g.Query() != "" {
+			gf.query[string(g.UUID())] = false
+		}
+	}
+	for _, g := range contact.Groups().All() {
+		if g.Query() != "" {
+			gf.query[string(g.UUID())] = true
+		} else {
+			gf.static = append(gf.static, string(g.UUID()))
+		}
+	}
+	return gf
+}
+
+func groupName(uuid string) string {
+	for i, q := range cf.QueryGroups {
+		if cf.QGroupUUID(i) == uuid {
+			return strings.ReplaceAll(q.Name, " ", "-")
+		}
+	}
+	return "static"
+}
+
+// judgeState checks the membership clause on one returned contact.
+func judgeState(prefix string, env envs.Environment, sa flows.SessionAssets, contact *flows.Contact, wasActive bool) []sm.Problem {
+	var ps []sm.Problem
+	exp, err := expectedMembership(env, sa, contact)
+	if err != nil {
+		return []sm.Problem{{Key: "harness:query", What: err.Error()}}
+	}
+	got := membership(sa, contact)
+	var keys []string
+	for k := range exp {
+		keys = append(keys, k)
+	}
+	sort.Strings(keys)
+	for _, k := range keys {
+		if exp[k] != got.query[k] {
+			dir := "missing-from-matching-group"
+			if got.query[k] {
+				dir = "member-of-non-matching-group"
+			}
+			ps = append(ps, sm.Problem{Key: prefix + ":" + dir + ":" + groupName(k) + ":status=" + string(contact.Status()),
+				What: fmt.Sprintf("query group %q: contact should be member=%v but is member=%v (status %s)", groupName(k), exp[k], got.query[k], contact.Status())})
+		}
+	}
+	if wasActive && contact.Status() != flows.ContactStatusActive && len(got.static) > 0 {
+		ps = append(ps, sm.Problem{Key: prefix + ":became-" + string(contact.Status()) + "-but-kept-static-groups",
+			What: fmt.Sprintf("contact became %s in this step but still belongs to %d static groups", contact.Status(), len(got.static))})
+	}
+	return ps
+}
+
+// judgeEvents checks that the membership changes between before and after are exactly what the
+// contact_groups_changed events announce (net effect per group).
+func judgeEvents(prefix string, before, after *cf.View, events [][]byte, types []string) []sm.Problem {
+	net := map[string]int{}
+	refreshed := false
+	for i, ev := range events {
+		if types[i] == "contact_refreshed" {
+			// the refreshed contact replaces the membership baseline
+			var e struct {
+				Contact json.RawMessage `json:"contact"`
+			}
+			json.Unmarshal(ev, &e)
+			if nv, err := cf.ViewOf(e.Contact); err == nil {
+				before = nv
+				net = map[string]int{}
+				refreshed = true
+			}
+		}
+		if types[i] != "contact_groups_changed" {
+			continue
+		}
+		var e struct {
+			Added   []struct{ UUID string } `json:"groups_added"`
+			Removed []struct{ UUID string } `json:"groups_removed"`
+		}
+		json.Unmarshal(ev, &e)
+		for _, g := range e.Added {
+			net[g.UUID]++
+		}
+		for _, g := range e.Removed {
+			net[g.UUID]--
+		}
+	}
+	_ = refreshed
+	in := func(v *cf.View, g string) bool {
+		for _, x := range v.Groups {
+			if x == g {
+				return true
+			}
+		}
+		return false
+	}
+	all := map[string]bool{}
+	for _, g := range before.Groups {
+		all[g] = true
+	}
+	for _, g := range after.Groups {
+		all[g] = true
+	}
+	for g := range net {
+		all[g] = true
+	}
+	var keys []string
+	for g := range all {
+		keys = append(keys, g)
+	}
+	sort.Strings(keys)
+	var ps []sm.Problem
+	for _, g := range keys {
+		delta := 0
+		if in(after, g) && !in(before, g) {
+			delta = 1
+		} else if !in(after, g) && in(before, g) {
+			delta = -1
+		}
+		if delta != net[g] {
+			ps = append(ps, sm.Problem{Key: fmt.Sprintf("%s:membership-change-not-announced:%s:actual=%+d:announced=%+d", prefix, groupName(g), delta, net[g]),
+				What: fmt.Sprintf("group %s: membership changed by %+d but contact_groups_changed events announce %+d", groupName(g), delta, net[g])})
+		}
+	}
+	return ps
+}
+
+// ---------------------------------------------------------------------------------------------
+
+func modClass(m cf.J) string {
+	t, _ := m["type"].(string)
+	if mod, ok := m["modification"].(string); ok {
+		return t + ":" + mod
+	}
+	return t
+}
+
+func judgeDirect(c *mc.Ctx, w *cf.World, d *cf.Direct, count bool) []sm.Problem {
+	r := w.Run(d)
+	if r.Panic != "" || r.Err != nil || r.NoModifier || r.ContactAfter == nil {
+		return nil // C03 reports harness problems and panics of this space
+	}
+	// A modifier that reports "not modified" does not re-evaluate groups; a contact whose *stored*
+	// membership was already wrong then stays wrong. The statement's clause is about what a modifier
+	// does, so a no-op on a wrongly stored contact is not judged (counted instead).
+	if !r.Modified {
+		if count {
+			c.Inc("direct_noop_not_judged")
+		}
+		return nil
+	}
+	before, _ := cf.ViewOf(r.Before)
+	after, _ := cf.ViewOf(r.After)
+	if count {
+		c.Inc("direct_judged")
+		if before.Status == "active" && after.Status != "active" {
+			c.Fact("became_non_active")
+		}
+		if strings.Join(before.Groups, ",") != strings.Join(after.Groups, ",") {
+			c.Fact("direct_membership_changed")
+		}
+	}
+	prefix := "direct:" + modClass(d.Modifier)
+	ps := judgeState(prefix, w.Env, w.SA, r.ContactAfter, before.Status == "active")
+	// note: the second application is part of r.ContactAfter (C03 shows it changes nothing); events
+	// of the first application are compared with the change between before and after the first
+	ps = append(ps, judgeEvents(prefix, before, after, r.Events, r.EventTypes)...)
+	return ps
+}
+
+type engineCase struct {
+	Root cf.EngineRoot `json:"root"`
+	Hist []string      `json:"history"`
+}
+
+func judgeEngine(c *mc.Ctx, ec *engineCase, count bool) []sm.Problem {
+	var ps []sm.Problem
+	obs, err := cf.Execute(&ec.Root, ec.Hist)
+	if err != nil {
+		return []sm.Problem{{Key: "harness:" + mc.Hash(err.Error()), What: err.Error()}}
+	}
+	for i, o := range obs {
+		if o.Panic != "" || o.Err != nil {
+			continue
+		}
+		callClass := "start-" + ec.Root.Trigger
+		if i > 0 {
+			callClass = strings.SplitN(o.Call, ":", 2)[0]
+		}
+		before, _ := cf.ViewOf(o.Before)
+		after, _ := cf.ViewOf(o.After)
+		contact := o.Session.Contact()
+		if count {
+			c.Inc("engine_sprints")
+			if strings.Join(before.Groups, ",") != strings.Join(after.Groups, ",") {
+				c.Fact("engine_membership_changed")
+			}
+			if before.Status == "active" && after.Status != "active" {
+				c.Fact("became_non_active")
+			}
+			c.Outcome(fmt.Sprintf("engine %s groups=%d", callClass, len(after.Groups)))
+		}
+		wasActive := before.Status == "active"
+		for _, t := range o.EventTypes {
+			if t == "contact_refreshed" {
+				wasActive = false // baseline replaced
+			}
+		}
+		prefix := "engine:" + callClass
+		ps = append(ps, judgeState(prefix, o.Session.Environment(), o.Session.Assets(), contact, wasActive)...)
+		ps = append(ps, judgeEvents(prefix, before, after, o.Events, o.EventTypes)...)
+	}
+	return ps
+}
+
+func run(c *mc.Ctx) {
+	w, err := cf.NewWorld()
+	if err != nil {
+		c.Violation("harness:world", err.Error(), nil)
+		return
+	}
+	contacts := cf.Contacts(c.Thorough())
+	mods := cf.Modifiers()
+	for ci := range contacts {
+		if !c.Mine(ci) {
+			continue
+		}
+		if c.Expired() {
+			c.Cap("time budget reached in the direct family")
+			return
+		}
+		for mi := range mods {
+			d := &cf.Direct{Contact: contacts[ci], Modifier: mods[mi], MaxField: 640}
+			c.Inc("evaluations")
+			c.Inc("states")
+			c.Inc("transitions")
+			for _, p := range judgeDirect(c, w, d, true) {
+				c.Violation(p.Key, p.What+"\ncontact: "+mc.JSON(d.Contact)+"\nmodifier: "+mc.JSON(d.Modifier), map[string]any{"space": "direct", "case": d})
+			}
+		}
+		c.Inc("distinct_nontrivial")
+	}
+	roots := cf.EngineRoots()
+	for i := range roots {
+		if !c.Mine(i) {
+			continue
+		}
+		if c.Expired() {
+			c.Cap("time budget reached in the engine family")
+			return
+		}
+		for _, h := range cf.Histories {
+			if len(h) > 0 && !roots[i].Wait {
+				continue
+			}
+			ec := &engineCase{Root: roots[i], Hist: h}
+			c.Inc("evaluations")
+			c.Inc("states")
+			c.Add("transitions", int64(1+len(h)))
+			for _, p := range judgeEngine(c, ec, true) {
+				c.Violation(p.Key, p.What+"\nroot: "+roots[i].String()+" contact: "+mc.JSON(roots[i].Contact)+fmt.Sprintf(" history: %v", h), map[string]any{"space": "engine", "case": ec})
+			}
+			if c.WantSample() && i%1201 == 7 {
+				c.Sample(map[string]any{"root": roots[i].String(), "history": h, "query_groups": len(cf.QueryGroups)})
+			}
+		}
+		c.Inc("distinct_nontrivial")
+	}
+}
+
+func replayFn(c *mc.Ctx, raw json.RawMessage) (string, bool) {
+	var probe struct {
+		Space string `json:"space"`
+	}
+	json.Unmarshal(raw, &probe)
+	var ps []sm.Problem
+	out := ""
+	if probe.Space == "direct" {
+		var rp struct {
+			Case cf.Direct `json:"case"`
+		}
+		json.Unmarshal(raw, &rp)
+		w, err := cf.NewWorld()
+		if err != nil {
+			return err.Error(), false
+		}
+		ps = judgeDirect(c, w, &rp.Case, false)
+		out = "direct: contact=" + mc.JSON(rp.Case.Contact) + " modifier=" + mc.JSON(rp.Case.Modifier)
+	} else {
+		var rp struct {
+			Case engineCase `json:"case"`
+		}
+		json.Unmarshal(raw, &rp)
+		ps = judgeEngine(c, &rp.Case, false)
+		out = "engine: " + rp.Case.Root.String() + " contact=" + mc.JSON(rp.Case.Root.Contact) + fmt.Sprintf(" history=%v", rp.Case.Hist)
+	}
+	for _, p := range ps {
+		out += "\nPROBLEM " + p.Key + ": " + p.What
+	}
+	return out, len(ps) > 0
+}
+
+func init() {
+	mc.Register(&mc.Check{
+		ID:    "C06",
+		Level: "model_checking",
+		Rule: "invariant on every state of two exhaustively enumerated spaces on the real code, with 16 query-based groups (one per queryable property: name, language, tel/urn/scheme, created_on, last_seen_on, tickets, text/number/datetime/location fields, AND, OR): (A) starting contacts (incl. wrong stored membership, non-active) x the whole modifier alphabet applied through modifiers.Apply; " +
+			"(B) engine: all ordered pairs of 16 contact-changing actions with/without a wait between x {manual,msg} triggers x 24 starting contacts x histories {start, msg resume, msg resume with refreshed contact}. Oracle, recomputed by the harness with its own parse of each group's query: member(g) <=> active AND query matches; active->non-active leaves no static groups; net membership change per group == what contact_groups_changed events announce.",
+		Assumptions: []string{"a modifier that reports not-modified is not judged on a contact whose stored membership was already wrong (no re-evaluation is promised for a no-op)", "the query is evaluated in the session's environment"},
+		Run:         run,
+		Replay:      replayFn,
+		Budget:      map[string]time.Duration{"quick": 4 * time.Minute, "thorough": 20 * time.Minute},
+		Guards: func(r *mc.Result, tier string) []string {
+			var f []string
+			for _, fact := range []string{"became_non_active", "direct_membership_changed", "engine_membership_changed"} {
+				if r.Facts[fact] == 0 {
+					f = append(f, "never observed: "+fact)
+				}
+			}
+			return f
+		},
+	})
+}
